@@ -14,6 +14,7 @@
 
 
 // std
+#include <cmath>
 #include <limits>
 
 // romea
@@ -28,7 +29,7 @@ namespace core
 OnlineAverage::OnlineAverage(const double & averagePrecision, size_t windowSize)
 : index_(0),
   windowSize_(windowSize),
-  multiplier_(static_cast<int>(1 / averagePrecision)),
+  multiplier_(static_cast<int>(std::lround(1 / averagePrecision))),
   data_(),
   sumOfData_(0.0),
   average_(std::numeric_limits<double>::quiet_NaN())
